@@ -44,6 +44,9 @@ __CPROVER_ensures((__CPROVER_return_value == 0 && 0 <= g_k2 && g_k2 < NGRPS) ==>
 
 int re_recmatch_contract(struct regex *re, struct rstate *rs, int nsub, regmatch_t *psub)
 __CPROVER_requires(__CPROVER_is_fresh(re, sizeof(*re)) && __CPROVER_is_fresh(rs, sizeof(*rs)))
+#ifdef RM_BOUND	/* bounded variant: the two loops are unwound instead of closed by loop contracts (robust against a loop being moved away) */
+__CPROVER_requires(nsub <= RM_BOUND)
+#endif
 __CPROVER_requires(0 <= nsub && nsub <= 0x100000 && nsub == g_nsub && __CPROVER_is_fresh(psub, sizeof(regmatch_t) * (nsub + 1)))
 __CPROVER_requires(0 <= g_subj_len && g_subj_len <= RX_MAXL)
 __CPROVER_assigns(rs->s, rs->pc, rs->dep, __CPROVER_object_upto(rs->mark, sizeof(rs->mark)), __CPROVER_object_whole(psub))
